@@ -30,7 +30,7 @@ TRUSTED = [
     "Coq 8.16.1 kernel + vm_compute",
     "translator gen/jsonx.go (keyword set, token codes, operator runes, exponent signs, error cap, SkipErrStmt loop condition, "
     "every write to the error state and the delegation skeleton of the helpers that reach it) and gen/jsonx_own.go (origin of "
-    "every []byte result, package-level buffers and pools)",
+    "every []byte result, package-level buffers and pools, how files are opened for writing)",
     "harness/cmd/jsonx + checks/jsonx_common.py comparison; jsonx/verif_export.go shim",
     "modelled, compared on every run, not verified: bufio.ReadRune UTF-8 decoding, strconv.Unquote, strconv.Quote, "
     "json.Marshal of strings, big.Int SetString/String, encoding/json as the reference JSON reader",
@@ -126,6 +126,16 @@ def to_coq(c):
         op = "stream"             # the model does not depend on how the reader delivers the bytes
     if op == "rseries":
         op = "series"
+    if op == "fhist":
+        if c.get("pre") in ("dir", "missingdir"):
+            return "CUtf8 [] []"   # must be an error: oracle only
+        steps, nonprint = [], set()
+        for tree, st in zip(c.get("pvs") or [], o.get("fsteps") or []):
+            if st.get("werr") or st.get("out") is None:
+                return None
+            nonprint.update(st.get("nonprint") or [])
+            steps.append("(%s,%s)" % (ptree(tree), nlist(st.get("out") or [])))
+        return "CFileHist %s [%s]" % (nlist(sorted(nonprint)), ";".join(steps))
     if op == "script":
         steps = []
         for st in o.get("steps") or []:
@@ -281,7 +291,7 @@ def correspondence(ck, cases, shard=1000):
 
 def slim(c):
     """A case without bulky fields, for samples and replays."""
-    d = {k: c[k] for k in c if k not in ("i", "pv")}
+    d = {k: c[k] for k in c if k not in ("i", "pv", "pvs")}
     return d
 
 
@@ -488,6 +498,33 @@ def usage_oracle(c):
     if op in ("reuse", "targets", "lexfn"):
         if o.get("note"):
             return op, o["note"]
+        return None
+    if op == "fhist":
+        if o.get("note"):
+            return "file-history", o["note"]
+        if c.get("pre") in ("dir", "missingdir"):
+            return None
+        wants = c.get("wants") or []
+        steps = o.get("fsteps") or []
+        hist = "over %s" % {"": "a fresh path", "mode0600": "a file of mode 0600", "mode0444": "a file of mode 0444",
+                            "longold": "a longer file that was there before", "symlink": "a symbolic link to a file",
+                            "dangling": "a dangling symbolic link"}.get(c.get("pre", ""), c.get("pre"))
+        for k, st in enumerate(steps):
+            what = "WriteFile %d of %d on one path (%s)" % (k + 1, len(steps), hist)
+            if st.get("werr"):
+                if c.get("pre") == "mode0444":
+                    return None   # not writable for this user: an error is right, and the history ends
+                return "file-history", "%s failed: %s" % (what, st["werr"])
+            if not st.get("same"):
+                return "file-history", "%s: the file holds %s, which is not the text Marshal prints for the value" % (
+                    what, st.get("text"))
+            if st.get("rerr"):
+                return "file-history", "%s: ReadFile rejects what WriteFile wrote (%s); the file holds %s" % (
+                    what, st["rerr"], st.get("text"))
+            if k < len(wants) and "E(" not in wants[k] and not same_value(wants[k], st.get("got")):
+                return "file-history", "%s: ReadFile returned %s, the value written is %s" % (what, st.get("got"), wants[k])
+        if len(steps) != len(wants):
+            return "file-history", "the history ended after %d of %d steps" % (len(steps), len(wants))
         return None
     if op == "raw" and o.get("note"):
         return "spelling", "the raw tokens do not spell the input: %s" % o["note"]
